@@ -2,7 +2,7 @@ SPECIFICATION GSpec
 CONSTANTS
   Behaviors = {"A", "B"}
   MaxOps = 2
-  MaxRestarts = 0
+  MaxRestarts = 1
   Defects = {}
-  Depth = 6
+  Depth = 5
 CONSTRAINT Emit
